@@ -19,7 +19,10 @@ def main():
     # geometries ON the edges of the domain: zero time, zero frequency (also as the HIGH frequency), MAX_FREQUENCY, zero extent
     fixed = {"BoundingBox": [[1.0, 0.0, 3.0, 0.0], [2.0, 0.0, 2.0, 0.0], [0.0, 0.0, 0.0, 0.0], [0.0, 0.0, 4.0, float(M)], [1.0, float(M), 2.0, float(M)]],
              "TimeInterval": [[0.0, 0.0], [0.0, 2.5]], "TimeStamp": [0.0], "Point": [[0.0, 0.0], [3.0, float(M)]],
-             "LineString": [[[0.0, 0.0], [2.0, 0.0]], [[1.0, float(M)], [1.0, 0.0]]], "MultiPoint": [[[0.0, 0.0], [0.0, float(M)]]]}
+             "MultiPoint": [[[0.0, 0.0], [0.0, float(M)]],
+                            # repeated points: every coordinate (and the number of parts) must survive the conversion
+                            [[1.0, 100.0], [1.0, 100.0], [3.0, 300.0], [3.0, 300.0]], [[2.0, 50.0], [4.0, 70.0], [2.0, 50.0]]],
+             "MultiLineString": [[[[1.0, 100.0], [2.0, 200.0]], [[1.0, 100.0], [2.0, 200.0]]]], "LineString": [[[0.0, 0.0], [2.0, 0.0]], [[1.0, float(M)], [1.0, 0.0]], [[1.0, 5.0], [1.0, 5.0], [2.0, 9.0], [2.0, 9.0]]]}
     for kind in TYPES:
         pool = [getattr(data, kind)(coordinates=c) for c in fixed.get(kind, [])]
         for j in range(n + len(pool)):
